@@ -563,3 +563,259 @@ def find(pat, t):
         if e is not None:
             return e, s
     return None
+
+
+# ---------------------------------------------------------------------------
+# path predicates (loop-free part), inlining, normalisation
+
+def path_dnf(tb, target, max_paths=256):
+    """Disjunction of conjunctions of (cond term, truth) under which control reaches block `target`
+    from the entry, following forward edges only (back edges ignored).  Returns list of frozensets,
+    or None when there are too many paths."""
+    cfg = tb.cfg
+    fn = tb.fn
+    rpoi = {b: i for i, b in enumerate(cfg.rpo)}
+    memo = {}
+
+    def edge_conds(p, b):
+        t = fn.blocks[p]["term"]
+        if t["t"] == "switch":
+            c = tb.operand(p, None, t["discr"])
+            if t["dty"].get("k") == "bool":
+                f = [tgt for v, tgt in t["arms"] if v == 0]
+                ft = f[0] if f else None
+                if b == t["otherwise"] and b != ft:
+                    return [(c, True)]
+                if b == ft and b != t["otherwise"]:
+                    return [(c, False)]
+                return []
+            vals = [v for v, tgt in t["arms"] if tgt == b]
+            if b == t["otherwise"]:
+                return [(("switch-other", c, tuple(v for v, _ in t["arms"])), True)]
+            return [(("op", "Eq", c, ("const", vals[0])), True)] if len(vals) == 1 else []
+        if t["t"] == "assert":
+            return [(tb.operand(p, None, t["cond"]), t["expected"])]
+        return []
+
+    def rec(b):
+        if b in memo:
+            return memo[b]
+        if b == 0:
+            memo[b] = [frozenset()]
+            return memo[b]
+        out = []
+        for p in cfg.pred[b]:
+            if rpoi.get(p, 1 << 30) >= rpoi.get(b, -1):
+                continue  # back edge
+            ps = rec(p)
+            if ps is None:
+                memo[b] = None
+                return None
+            ec = edge_conds(p, b)
+            for conj in ps:
+                c2 = set(conj)
+                bad = False
+                for (c, v) in ec:
+                    if (c, not v) in c2:
+                        bad = True
+                    c2.add((c, v))
+                if not bad:
+                    out.append(frozenset(c2))
+        out = simplify_dnf(out)
+        if len(out) > max_paths:
+            memo[b] = None
+            return None
+        memo[b] = out
+        return out
+    return rec(target)
+
+
+def simplify_dnf(dnf):
+    dnf = list(dict.fromkeys(dnf))
+    changed = True
+    while changed:
+        changed = False
+        n = len(dnf)
+        for i in range(n):
+            for j in range(i + 1, n):
+                a, b = dnf[i], dnf[j]
+                d = a ^ b
+                if len(d) == 2:
+                    (c1, v1), (c2, v2) = tuple(d)
+                    if c1 == c2 and v1 != v2:
+                        merged = a & b
+                        dnf = [x for k, x in enumerate(dnf) if k not in (i, j)] + [merged]
+                        changed = True
+                        break
+                if a <= b:
+                    dnf = [x for k, x in enumerate(dnf) if k != j]
+                    changed = True
+                    break
+                if b <= a:
+                    dnf = [x for k, x in enumerate(dnf) if k != i]
+                    changed = True
+                    break
+            if changed:
+                break
+    return dnf
+
+
+def subst(t, env):
+    """replace ("param", i) by env[i]"""
+    if not isinstance(t, tuple):
+        return t
+    if t and t[0] == "param":
+        return env.get(t[1], t)
+    return tuple(subst(x, env) if isinstance(x, tuple) else x for x in t)
+
+
+def map_term(t, f):
+    """bottom-up rewrite"""
+    if not isinstance(t, tuple):
+        return t
+    t2 = tuple(map_term(x, f) if isinstance(x, tuple) else x for x in t)
+    return f(t2)
+
+
+_ret_cache = {}
+
+
+def callee_return(crate, path):
+    key = (id(crate), path)
+    if key not in _ret_cache:
+        fn = crate.fns.get(path)
+        if fn is None:
+            _ret_cache[key] = None
+        else:
+            _ret_cache[key] = TermBuilder(fn).return_term()
+    return _ret_cache[key]
+
+
+def inline(t, crate, depth=3, only=None):
+    """expand calls to crate-local functions by their return term (bounded depth)"""
+    if depth <= 0:
+        return t
+
+    def f(x):
+        if x[0] == "call" and isinstance(x[1], str) and x[1] in crate.fns and (only is None or only(x[1])):
+            fn = crate.fns[x[1]]
+            if fn.f["kind"] == "Closure":
+                return x
+            rt = callee_return(crate, x[1])
+            if rt is None or rt[0] in ("never",):
+                return x
+            if any(s[0] == "mu" for s in subterms(rt)):
+                return x
+            env = {i + 1: a for i, a in enumerate(x[2])}
+            return inline(subst(rt, env), crate, depth - 1, only)
+        return x
+    return map_term(t, f)
+
+
+def strip_casts(t):
+    def f(x):
+        if x[0] == "cast":
+            return x[2]
+        return x
+    return map_term(t, f)
+
+
+def normalise(t):
+    """canonical forms: ceil-division idioms, commutative sorting, comparison direction"""
+    def f(x):
+        if x[0] == "ite":
+            c, a, b = x[1], x[2], x[3]
+            # if n % d == 0 { n/d } else { n/d + 1 }
+            if c[0] == "call" and isinstance(c[1], str) and c[1].endswith("::is_multiple_of"):
+                n, d = c[2]
+                q = ("op", "Div", n, d)
+                a0 = a[2] if a[0] == "cast" else a
+                b0 = b[2] if b[0] == "cast" else b
+                if a0 == q and b0 in (("op", "Add", ("const", 1), q), ("op", "Add", q, ("const", 1))):
+                    r = ("ceildiv", n, d)
+                    if a[0] == "cast" and b[0] == "cast" and a[1] == b[1]:
+                        return ("cast", a[1], r)
+                    return r
+            return x
+        if x[0] == "call" and isinstance(x[1], str) and x[1].endswith("::div_ceil") and len(x[2]) == 2:
+            return ("ceildiv", x[2][0], x[2][1])
+        if x[0] == "op":
+            op, a, b = x[1], x[2], x[3]
+            if op in COMMUTATIVE and repr(b) < repr(a):
+                return ("op", op, b, a)
+            if op == "Gt":
+                return ("op", "Lt", b, a)
+            if op == "Ge":
+                return ("op", "Le", b, a)
+        return x
+    return map_term(t, f)
+
+
+def canon_cond(c, v):
+    """canonical (cond, truth): push negation into comparisons"""
+    c = normalise(c)
+    if c[0] == "un" and c[1] == "Not":
+        return canon_cond(c[2], not v)
+    if c[0] == "op" and not v:
+        neg = {"Lt": ("Le", True), "Le": ("Lt", True), "Eq": ("Ne", False), "Ne": ("Eq", False)}
+        if c[1] in neg:
+            nop, swap = neg[c[1]]
+            a, b = c[2], c[3]
+            if swap:
+                a, b = b, a
+            return normalise(("op", nop, a, b)), True
+    if c[0] == "op" and c[1] == "Ne" and v:
+        return c, True
+    return c, v
+
+
+def simplify(t):
+    """algebraic clean-up after inlining: &/* cancellation, projections of aggregates, constant folding"""
+    def f(x):
+        k = x[0]
+        if k in ("deref", "deref*") and x[1][0] == "ref":
+            return x[1][1]
+        if k == "field":
+            b, i = x[1], x[2]
+            if b[0] == "agg" and isinstance(i, int) and i < len(b[2]):
+                return b[2][i]
+            if b[0] == "ite":
+                return f(("ite", b[1], f(("field", b[2], i)), f(("field", b[3], i))))
+        if k == "ite" and x[2] == x[3]:
+            return x[2]
+        if k == "op" and x[2][0] == "const" and x[3][0] == "const" and isinstance(x[2][1], int) and isinstance(x[3][1], int):
+            a, b = x[2][1], x[3][1]
+            try:
+                v = {"Add": a + b, "Sub": a - b, "Mul": a * b, "Div": a // b if b else None, "Rem": a % b if b else None,
+                     "Shl": a << b if 0 <= b < 128 else None, "Shr": a >> b if 0 <= b < 128 else None,
+                     "BitAnd": a & b, "BitOr": a | b, "BitXor": a ^ b}.get(x[1])
+            except Exception:
+                v = None
+            if v is not None:
+                return ("const", v)
+        return x
+    return map_term(t, f)
+
+
+def inline_closures(t, crate, depth=3):
+    """expand calls of closures (Fn::call through the resolved closure body) with their environment"""
+    if depth <= 0:
+        return t
+
+    def f(x):
+        if x[0] == "call" and isinstance(x[1], str) and x[1] in crate.fns and crate.fns[x[1]].f["kind"] == "Closure" \
+                and len(x[2]) == 2:
+            env, args = x[2]
+            rt = callee_return(crate, x[1])
+            if rt is None:
+                return x
+            sub = {1: env}
+            if args[0] == "agg":
+                for i, a in enumerate(args[2]):
+                    sub[i + 2] = a
+            else:
+                return x
+            r = simplify(subst(rt, sub))
+            return inline_closures(r, crate, depth - 1)
+        return x
+    return map_term(t, f)
